@@ -1,7 +1,7 @@
 (* C01 — Query results equal the declarative semantics of the query.
    Sem.v is the specification (what the query language defines); Exec.v is the transcription of
    execution.rs.  Only statements, `exact` proofs, Print Assumptions and examples live here. *)
-From TF Require Import Sem SemProofs Exec Run Sim SimRec SimComp SimOut SimTop FoldOut SimGen SimFull WfCheck RunHyps.
+From TF Require Import Sem SemProofs Exec Run Sim SimRec SimComp SimOut SimTop FoldOut SimGen SimFull WfCheck SemT SimGenT EraseSem SimFinal RunHyps.
 Local Open Scope string_scope.
 
 (* ---- what the specification says, in the words of the language reference ---- *)
@@ -99,6 +99,39 @@ Proof.
 Qed.
 Print Assumptions C01_engine_refines_spec_checked.
 
+(* ---- ... and without the restriction on the minimum truncation ----
+   Since the repair of F9 the engine truncates a fold to `min` elements only when nothing observes the
+   fold (Exec.min_eligible).  The truncation is then invisible: the interpreter model refines the
+   truncating specification SemT (SimGenT/SimFullT, same proof as above without the no-min-limit
+   hypothesis), and SemT produces the same rows as Sem (EraseSem: every stage of the specification
+   depends only on the erasure of the unobserved folds, the projection ignores it, and `>`/`>=` count
+   filters cannot tell min(n, m) from n).  Hypotheses about the query:
+     wf_comp_t  recursion depths >= 1, import keys fresh;
+     wf_out, NoDup names   as above;
+     erasable   fold eids distinct; no filter / import / count filter of a component reads the count
+                of a fold of that component that passes min_eligible (reads_ok - this is what the repaired
+                eligibility test guarantees for IRs whose fold references are consistent, C11); no
+                truncation limit saturates at usize::MAX.
+   refine_hyps is their executable conjunction, evaluated on every generated world (evidence:
+   worlds_meeting_theorem_hypotheses). *)
+Theorem C01_engine_refines_spec_all :
+  forall re g args q rows,
+    ty_indep g ->
+    wf_comp_t [] (q_comp q) -> wf_out (q_comp q) -> NoDup (all_output_names (q_comp q)) ->
+    erasable args (q_comp q) ->
+    interpret re g args q = Ok rows ->
+    Forall2 row_equiv rows (sem re g args q).
+Proof. intros re g args q rows Hi. exact (interpret_refines_sem re g args Hi q rows). Qed.
+Print Assumptions C01_engine_refines_spec_all.
+
+Theorem C01_engine_refines_spec_all_checked :
+  forall re g args q rows,
+    ty_indep g -> refine_hyps args q = true ->
+    interpret re g args q = Ok rows ->
+    Forall2 row_equiv rows (sem re g args q).
+Proof. exact interpret_refines_sem_checked. Qed.
+Print Assumptions C01_engine_refines_spec_all_checked.
+
 (* component level (any imported tags, any starting contexts): assignments AND the fold-output
    bookkeeping (FV: the folded_values map is, key by key, the closed form fspec of the projection) *)
 Theorem C01_component_refines_spec :
@@ -157,3 +190,24 @@ Example C01_engine_refines_spec_nonvacuous :
   end.
 Proof. vm_compute. split; reflexivity. Qed.
 Print Assumptions C01_engine_refines_spec_nonvacuous.
+
+(* non-vacuity of the unrestricted theorem: the witness world meets refine_hyps, and so does a world
+   with a fold that IS truncated (count filter `>= 2` on an unobserved fold) *)
+Definition tr_rq := mkRQ "Thing" [("hi", Null); ("lo", Null)]
+  (RComp 1%N [mkV 1%N "Thing" None []] []
+     [RFold (mkFH 1%N 1%N 2%N "next" [("hi", I64 1000%Z); ("lo", Null)] [] []
+               [mkPF GreaterThanOrEqual (Some (AVar "a" (mkTy "Int" 1%N)))])
+            (RComp 2%N [mkV 2%N "Thing" None []] [] [] [])]
+     [("o0", mkCF 1%N "id" (mkTy "Int" 1%N))])
+  [("a", mkTy "Int" 1%N)].
+Definition tr_args := [("a", I64 2%Z)].
+Definition tr_d := mkDS [(1%N, "Gadget")] [(1%N, [("id", I64 1%Z)])] [(1%N, [("next", [1%N; 1%N; 1%N])])]
+  [("Box", []); ("Gadget", [1%N]); ("Item", []); ("Leaf", []); ("Thing", [1%N])]
+  [("Thing", ["Box"; "Leaf"; "Gadget"]); ("Item", ["Box"; "Leaf"]); ("Box", ["Box"]); ("Leaf", ["Leaf"]); ("Gadget", ["Gadget"])].
+Example C01_engine_refines_spec_all_nonvacuous :
+  (match lower_query aw_rq with Ok q => refine_hyps aw_args q = true | Panic _ => False end) /\
+  run_hyps tr_rq tr_args = "HYP:yes+min" /\
+  run_exec (re_table [] []) tr_d tr_rq tr_args = "ROWS:o0=i1" /\
+  run_sem (re_table [] []) tr_d tr_rq tr_args = "ROWS:o0=i1".
+Proof. vm_compute. repeat split; reflexivity. Qed.
+Print Assumptions C01_engine_refines_spec_all_nonvacuous.
